@@ -181,7 +181,51 @@ thread_local! {
     static SHARD_SLOT: std::cell::Cell<usize> = std::cell::Cell::new(usize::MAX);
 }
 
+/// Every call into kiki that is currently in progress, in any thread and any phase (regress replays, probes,
+/// enumerations, sharded search): (thread token, start, input).
+static ACTIVE_CALLS: Mutex<Vec<(u64, Instant, String)>> = Mutex::new(Vec::new());
+static NEXT_TOKEN: std::sync::atomic::AtomicU64 = std::sync::atomic::AtomicU64::new(1);
+
+thread_local! {
+    static THREAD_TOKEN: u64 = NEXT_TOKEN.fetch_add(1, Ordering::Relaxed);
+}
+
+/// Process-wide watchdog over calls into kiki: a call that has not returned after `case_timeout_secs()` ends the
+/// run (exit 2; for C07 a small input is first confirmed in a child process and then reported as a violation).
+pub fn start_global_watchdog(prop: &str, root: &std::path::Path) {
+    let prop_name = prop.to_string();
+    let root = root.to_path_buf();
+    std::thread::spawn(move || loop {
+        std::thread::sleep(std::time::Duration::from_millis(500));
+        let limit = case_timeout_secs();
+        let stuck: Option<String> = ACTIVE_CALLS.lock().ok().and_then(|v| v.iter().find(|(_, t, _)| t.elapsed().as_secs() > limit).map(|(_, _, s)| s.clone()));
+        if let Some(t) = stuck {
+            let dir = root.join("replays").join(&prop_name);
+            let _ = std::fs::create_dir_all(&dir);
+            let p = dir.join(format!("watchdog-{:016x}.json", hash_of(&t)));
+            let _ = std::fs::write(&p, serde_json::to_string_pretty(&json!({"property": prop_name, "kind": "watchdog", "case": {"source": t}})).unwrap());
+            if prop_name == "C07" && t.len() <= 4096 && crate::props::total::confirm_hang(&root, &t) {
+                eprintln!("--- violation does-not-terminate ---\ngenerate did not return on a {}-byte input, neither within {limit} s in-process nor within the confirmation limit in a fresh child process\n", t.len());
+                println!("VIOLATION property={prop_name} replay={}", p.display());
+                std::process::exit(1);
+            }
+            println!(
+                "INCONCLUSIVE property={prop_name} watchdog: a call of kiki::generate did not return within {limit} s (non-termination cannot be decided by testing); input kept at {}",
+                p.display()
+            );
+            std::process::exit(2);
+        }
+    });
+}
+
 pub fn note_current_input(text: Option<&str>) {
+    let token = THREAD_TOKEN.with(|t| *t);
+    if let Ok(mut v) = ACTIVE_CALLS.lock() {
+        v.retain(|(k, _, _)| *k != token);
+        if let Some(t) = text {
+            v.push((token, Instant::now(), t.to_string()));
+        }
+    }
     let slot = SHARD_SLOT.with(|c| c.get());
     if slot == usize::MAX {
         return;
